@@ -792,7 +792,9 @@ class Rechunk(ArrayExpr):
                 self._chunks,
                 self.threshold,
                 self.block_size_limit,
-                self.balance or self.array.balance,
+                # The inner rechunk's chunks are overwritten; only this
+                # rechunk's own balance request shapes the final target.
+                self.balance,
                 self.method,
             )
 
@@ -956,7 +958,9 @@ class Rechunk(ArrayExpr):
 
         transpose = self.array
         axes = transpose.axes
-        chunks = self._chunks
+        # With balance the raw spec is not the target: push the settled
+        # chunks (balance already applied) and rechunk with balance off.
+        chunks = self.chunks if self.balance else self._chunks
 
         if isinstance(chunks, tuple):
             # Map output chunks back through transpose axes to get input chunks
@@ -986,7 +990,9 @@ class Rechunk(ArrayExpr):
 
         elemwise = self.array
         out_ind = elemwise.out_ind
-        chunks = self._chunks
+        # With balance the raw spec is not the target: push the settled
+        # chunks (balance already applied) and rechunk with balance off.
+        chunks = self.chunks if self.balance else self._chunks
 
         # Convert dict chunks to tuple for positional indexing
         if isinstance(chunks, dict):
